@@ -55,6 +55,7 @@ fn c10_table_layout_one_entry() {
 /// parse: entry count from the size field, fields from their positions
 #[kani::proof]
 #[kani::unwind(70)]
+#[kani::stub(core::str::validations::run_utf8_validation, crate::verif_support::refs::ascii_utf8_validation)]
 fn c10_parse_one_entry() {
     let mut buf = [0u8; 1024 + 96];
     let magic = b"FileInfo";
